@@ -77,7 +77,7 @@ def _returns_if(stmt, needles):
     return any(isinstance(s, ast.Return) for s in stmt.body)
 
 
-def _probe_rearm(kind, cyclic):
+def _probe_rearm(kind, cyclic, started):
     """'always' / 'never' are read off the syntax; a guarded re-arm is decided by EXECUTING the real Task.defer on a
     completed join execution triggered by a new task, in a definition where the join is / is not on a cycle
     (harness.suites.C04.probe_defer; the same probe is the correspondence check of Model/JoinLife.on_trigger)."""
@@ -87,7 +87,7 @@ def _probe_rearm(kind, cyclic):
         return False
     try:
         from harness.suites import C04
-        effs = set(C04.probe_defer(st, cyclic) for st in ('SUCCESS', 'ERROR', 'CANCELLED'))
+        effs = set(C04.probe_defer(st, cyclic, started=started) for st in ('SUCCESS', 'ERROR', 'CANCELLED'))
     except Exception as e:
         raise TranslateError('cannot probe Task.defer: %s: %s' % (type(e).__name__, e))
     if effs == {'rearm'}:
@@ -166,8 +166,10 @@ def _defer_facts(tree):
             # a trigger arriving after the join execution completed puts it back to WAITING:
             #   in a workflow where the join is not on a cycle / where it is (a guarded re-arm is taken to be
             #   the cycle test; the correspondence suite runs the real Task.defer on both kinds of definitions)
-            'defer_rearm_acyclic': _probe_rearm(rearm[0], False),
-            'defer_rearm_cyclic': _probe_rearm(rearm[0], True)}
+            'defer_rearm_acyclic': _probe_rearm(rearm[0], False, True),
+            'defer_rearm_cyclic': _probe_rearm(rearm[0], True, True),
+            # ... and a join execution that completed (failed) without ever starting
+            'defer_rearm_unstarted': _probe_rearm(rearm[0], False, False)}
 
 
 def _refresh_facts(tree):
